@@ -787,10 +787,13 @@ def _sparse_case(draw):
     la, lb = draw(st.sampled_from(LAYOUTS)), draw(st.sampled_from(LAYOUTS))
     if draw(st.sampled_from((True, True, False, False, False))):
         la, lb = "bsr", "bsc"                 # pypose's own kernel gets 40 % of the budget
-    dims = st.sampled_from((0, 1, 1, 2, 2, 2, 3, 3, 3, 4, 4, 5, 5, 6, 6))
-    return {"br": draw(dims), "bk": draw(dims), "bc": draw(dims),
-            "bm": draw(st.sampled_from((1, 2, 3, 4))), "bi": draw(st.sampled_from((1, 2, 3, 4))),
-            "bn": draw(st.sampled_from((1, 2, 3, 4))),
+    # block-grid dimensions: mostly small (many patterns per second), one case in ~6 per dimension reaches out to the
+    # stated limit "matrix sizes 1..40" (grid dimension x block size <= 40), so long block rows / columns (dozens of stored
+    # blocks in one merge) are generated too
+    dims = st.sampled_from((0, 1, 1, 2, 2, 2, 3, 3, 3, 4, 4, 5, 5, 6, 6, 9, 14, 20, 40))
+    bm, bi, bn = (draw(st.sampled_from((1, 1, 2, 3, 4))) for _ in range(3))
+    return {"br": min(draw(dims), 40 // bm), "bk": min(draw(dims), 40 // bi), "bc": min(draw(dims), 40 // bn),
+            "bm": bm, "bi": bi, "bn": bn,
             "la": la, "lb": lb, "api": draw(st.sampled_from(("dispatch", "dispatch", "direct"))),
             "integer": draw(st.sampled_from((True, True, False))),
             "dtype": draw(st.sampled_from(("float64", "float64", "float32"))),
@@ -864,6 +867,9 @@ class Sparse(Sub):
         if must and (empty_line or min(dA, dB) < 0.3):
             rec.nt((tag, "direct" if direct else "disp", case["styleA"], case["styleB"], round(dA, 1), round(dB, 1),
                     (case["br"], case["bk"], case["bc"]), (case["bm"], case["bi"], case["bn"]), integer, dtype))
+        if (la, lb) == ("bsr", "bsc"):
+            longest = max(int(mA.sum(1).max()) if mA.size else 0, int(mB.sum(0).max()) if mB.size else 0)
+            rec.label("bsr_bsc:longest_line:" + ("0" if longest == 0 else "1-4" if longest <= 4 else "5-16" if longest <= 16 else "17-40"))
         _check_product(rec, Y, An, Bn, integer, dtype, what, tag)
 
     def simplify(self, case):
